@@ -39,7 +39,7 @@ def gen_cases(tier, seed):
         if mode == "plain":
             f = r.random()
             if f < 0.35:
-                d["faults"] = {"p": r.choice([0.1, 0.4]), "kinds": ["exc", "value", "callerr"]}
+                d["faults"] = {"p": r.choice([0.1, 0.4]), "kinds": ["exc", "value", "callerr", "ctorargs"]}
                 d["max_errors"] = r.choice([0, 2, None])
             elif f < 0.5:
                 d["faults"] = {"p": 0.2, "kinds": ["base", "kbi", "exc"]}
@@ -452,7 +452,7 @@ def run_case(desc):
         R = plainrun.execute(desc, progress=progress, record_args=False, extra_run_kwargs=xkw)
         H, ir = R.H, R.ir
         exc = R.exc
-        balanced = all(k in ("exc", "value", "callerr") for k, _ in R.fail.values())
+        balanced = all(k in ("exc", "value", "callerr", "ctorargs") for k, _ in R.fail.values())
         describe = ir.describe(12)
         sig_src = "\n".join(ir.describe(200)) + f"{sorted(R.fail)}"
     else:
